@@ -332,7 +332,14 @@ fn numeric_line_for(r: &mut Rng, out: &mut dyn Write, prefix: &str, sfx: &str) {
         _ => text_num,
     };
     let sep2 = if sfx.len() == 2 { " " } else { *r.pick(&[" ", " ", "  "]) };
-    let text = format!("{} {}{}{}", prefix, text_num, sep2, sfx);
+    // layout variations the parser accepts (one text in six): the numeral directly after the prefix, a tab, several
+    // blanks, no blank before the scale (a seeded change that skipped one byte after the prefix was missed)
+    let (sep1, sep2) = if r.chance(1, 6) {
+        (*r.pick(&["", "", "  ", "\t"]), *r.pick(&[" ", "", "\t", "  "]))
+    } else {
+        (" ", sep2)
+    };
+    let text = format!("{}{}{}{}{}", prefix, sep1, text_num, sep2, sfx);
     writeln!(out, "nparse {} {} {} {}", str2hex(&text), prefix, str2hex(&text_num), sfx).unwrap();
 }
 
